@@ -134,6 +134,13 @@ def case(spec):
     # about them (see echo_scripts)
     for k in ("p2pkh", "p2sh", "p2pk33", "p2pk65", "p2pkh", "p2sh") * 4:
         pick.insert(rng.randrange(len(pick) + 1), ("hostile:wellformed", sg.template(rng, k)))
+    # order matters too: a script that makes the evaluator speak up from a worker thread (a v0 witness program of an illegal length) in a
+    # LATER block than a printed OP_RETURN row, and the other way round
+    pick.insert(0, ("hostile:opreturn-text", b"\x6a" + gen.push(b"an early row")))
+    pick.insert(min(len(pick), 3), ("hostile:v0-illegal-length", b"\x00\x03\xaa\xbb\xcc"))
+    pick.append(("hostile:opreturn-text", b"\x6a" + gen.push(b"a late row")))
+    pick += [("hostile:v0-illegal-length", b"\x00\x02\xaa\xbb"), ("hostile:v0-illegal-length", b"\x00\x10" + rbytes(rng, 16)),
+             ("hostile:opreturn-text", b"\x6a" + gen.push(b"the last row"))]
     fork = not COINS[coin].bitcoin_rules
     hostile_set = {s for _, s in pick}
     echoes = 0
